@@ -194,7 +194,7 @@ def run(ctx):
     from .. import gen
     from concurrent.futures import ThreadPoolExecutor
 
-    n = 165 if not ctx.thorough else 4004
+    n = 440 if not ctx.thorough else 4400
     hashseeds = [0, 1, 2, 3, 4, 5, 6, 7] if not ctx.thorough else list(range(0, 36)) + [4242, 99999, 2**31, 4294967295, "random", "random", "random", "random", "random", "random", "random", "random"]
     items = battery(ctx.seed, n)
     ORDERS = ("forward", "reversed", "shuffled", "interleaved")
